@@ -336,8 +336,9 @@ class Routine:
                         cls = ("MATCH", inner)
                     else:
                         cls = ("OTHER", sde)
-            elif isinstance(sde, tuple) and sde[0] == "call" and sde[1] in ("len", "len_of", "size", "ndim", "nrows", "ncols") and \
-                    bad_vals == [0] and not bad_other:
+            elif bad_vals == [0] and not bad_other and isinstance(sde, tuple) and (
+                    (sde[0] == "call" and sde[1] in ("len", "len_of", "size", "ndim", "nrows", "ncols")) or
+                    (sde[0] == "field" and isinstance(strip(sde[1]), tuple) and strip(sde[1])[0] == "call" and strip(sde[1])[1] in ("dim", "shape"))):
                 # `match x.len() { 0 => <bad>, n => … }`: the same decision as `x.len() == 0`
                 c, bad_when = classify_bool(("binop", "Eq", sde, ("const", "usize", 0)))
                 cls = c if bad_when else ("NEG",) + (c,)
